@@ -25,11 +25,6 @@ package reconciledloader
 //@   params x
 //@   requires dyntype(x) == typetag("*remotedLinkedItem") && clean(x)
 //@   modifies nothing
-//@ func github.com/ipfs/go-cid.Cid.Equals
-//@   assumed
-//@   params o
-//@   modifies nothing
-//@   ensures result == (self == o)
 
 //@ func newRemote
 //@   requires allGood()
